@@ -105,6 +105,17 @@ for a in r_anoms:
         seen_sites.add((a["site"], len(a["argv"] or [])))
         v.report({"branch": "input." + a["site"], "kind": "malformed-reply", "detail": ""}, a,
                  what="%s -> the reply is not exactly one well-formed RESP value: %s" % (" ".join(repr(x) for x in a["argv"]), a["detail"][:300]))
+# ---- concurrent connections (lib/wireconc.py): each connection's reply stream is its own, also while the server is blocked
+# in the middle of writing a multi-megabyte reply to a reader that does not read
+import wireconc
+wc_stats = []
+for rnd_i in range(1 if tier == "quick" else 4):
+    probs, wst = wireconc.run(seed=seed * 10 + rnd_i)
+    wc_stats.append(wst)
+    for pr in probs:
+        v.report({"branch": "concurrent-connections", "kind": pr["kind"], "detail": pr["cmd"].split()[0].lower()}, pr,
+                 what="concurrent connections, %s, %s: %s" % (pr["conn"], pr["cmd"], pr["detail"]))
+cov["concurrent_connections"] = wc_stats
 cov["adversarial_inputs"] = r_summary["executed"]
 cov["traces_validated_against_impl"] += 0
 cov["samples"].append({"kind": "B1 wire batch", "example": "RPUSH l1 a 'b\\r\\n' | LRANGE l1 0 -1 written as one batch; the reply stream must decode to exactly 2 replies"})
